@@ -18,7 +18,7 @@ from ..seams.flow import (Tok, SimSource, ProbeCall, ProbeFC, ProbeFR, ProbeSrc,
 PROPERTY = "C03"
 LEVEL = "fault_enumeration"
 SWEEP = True
-N_RUNS = {"quick": 300000, "thorough": 1500000}
+N_RUNS = {"quick": 300000, "thorough": 6000000}
 RULE = ("each run draws 0-4 Split branches of the four kinds (Source, fill/compute, fill/request, "
         "plain Sequence; given as explicit sequences, tuples or bare elements; with map / filter / "
         "Slice / stop-fill pre-elements and map post-elements), bufsize in {1,2,3,len+1,1000,None}, "
